@@ -7,9 +7,13 @@
    An option vector o is a function from option names (a subset of OptNames) to values.              *)
 EXTENDS Naturals, Integers, Sequences, FiniteSets, TLC
 OptNames == {"n", "m", "s", "a", "e", "d", "R", "u", "M", "r", "c", "w", "f", "L", "q", "O", "o", "j"}
+\* X04 (beyond the list): options whose effect is a side effect -- C = -C/--command, E = -E/--echo, G = --debug-file, D = -D/--debug,
+\* T = -T/--output-format, P = --save-image
+FxNames == {"C", "E", "G", "D", "T", "P"}
 NoVal == "none"
 Defaults == [n |-> 2000, m |-> 50000, s |-> 3000, a |-> 100, e |-> 50, d |-> FALSE, R |-> FALSE, u |-> NoVal, M |-> -1,
-             r |-> 16000, c |-> 1, w |-> 2, f |-> NoVal, L |-> FALSE, q |-> FALSE, O |-> NoVal, o |-> NoVal, j |-> -1]
+             r |-> 16000, c |-> 1, w |-> 2, f |-> NoVal, L |-> FALSE, q |-> FALSE, O |-> NoVal, o |-> NoVal, j |-> -1,
+             C |-> NoVal, E |-> FALSE, G |-> NoVal, D |-> FALSE, T |-> NoVal, P |-> NoVal]
 Eff(o, k) == IF k \in DOMAIN o THEN o[k] ELSE Defaults[k]
 \* what the API must be given (long names); M = -1 stands for "no max_read"
 Kwargs(o) == [min_dur |-> Eff(o, "n"), max_dur |-> Eff(o, "m"), max_silence |-> Eff(o, "s"), analysis_window |-> Eff(o, "a"),
@@ -22,6 +26,15 @@ Prints(o) == Exit(o) = 0 /\ ~Eff(o, "q")
 SavesStream(o) == Exit(o) = 0 /\ "O" \in DOMAIN o /\ "j" \notin DOMAIN o       \* -O alone: the whole stream that was read
 JoinsEvents(o) == Exit(o) = 0 /\ "O" \in DOMAIN o /\ "j" \in DOMAIN o           \* -O with -j: events joined by j seconds of silence
 SavesRegions(o) == Exit(o) = 0 /\ "o" \in DOMAIN o                              \* one file per detection
+\* X04: side effects.  Nothing happens when the arguments are rejected (exit status 1).
+RunsCommands(o) == Exit(o) = 0 /\ "C" \in DOMAIN o       \* one command per detection, in order, {file} = a wav file holding that detection
+Echoes(o) == Exit(o) = 0 /\ "E" \in DOMAIN o             \* every detection is played, in order
+LogsToFile(o) == Exit(o) = 0 /\ "G" \in DOMAIN o         \* the debug file holds the processing log (see WorkersProps!LogOK)
+LogsToStderr(o) == Exit(o) = 0 /\ "D" \in DOMAIN o
+\* who writes log lines: 0 = the tokenizer ([DET]), 1 = region saver ([SAVE]), 2 = player ([PLAY]), 3 = command ([COMMAND])
+LogWriters(o) == (IF "o" \in DOMAIN o THEN {1} ELSE {}) \cup (IF "E" \in DOMAIN o THEN {2} ELSE {}) \cup (IF "C" \in DOMAIN o THEN {3} ELSE {})
+Plots(o) == Exit(o) = 0 /\ "P" \in DOMAIN o               \* plot() gets the whole stream that was read, the API's detections, the -e threshold, the image name
+OutFormat(o) == IF "T" \in DOMAIN o THEN o["T"] ELSE "wav"   \* of the -O / -o files (their names end in .wav in the harness)
 (* time formats: a printed time is parsed into whole milliseconds W; the exact instant is num/den MILLISECONDS
    (for a detection at sample f of a stream at rate r: num = 1000 f, den = r) *)
 Abs(a) == IF a < 0 THEN -a ELSE a
